@@ -102,6 +102,29 @@ CHECKS["C14"] = dict(
     technique="TLA+ law (Ensemble.tla) evaluated by TLC on recorded pick events (trace validation)",
 )
 
+CHECKS["C10"] = dict(
+    category="model_checking",
+    text="History.tla models slots holding parsed objects and the hidden state the implementation has (per-object use count, module-level generator, typing cache); "
+         "TLC enumerates ALL histories to depth 3 (thorough: depth 4 on two strings) over parse / generate(seed) / generate(module generator) / perturb module generator / "
+         "observe (both printed forms, generable, elements, mirror, reaction graph, atom graph) / element-by-element generation / atom-graph generation, on two slots that "
+         "may hold the same string. Every history is replayed in the real library and every observation compared with a baseline computed in a pristine interpreter per "
+         "(string, operation, argument). Strings include a left terminal with a transition list, a gaussian with negative draws (seed chosen so that the target IS negative), "
+         "branched weighted end-group starts, Schulz-Zimm alternating copolymers and a connector molecule.",
+    design_ref="DESIGN.md 4/C10",
+    note="Trusted: TLC (enumeration of histories), the baseline = same code in a spawned pristine process (two pristine processes are also compared with each other).",
+    technique="TLA+ history spec enumerated exhaustively by TLC; every history replayed into the implementation against pristine baselines",
+)
+CHECKS["C20"] = dict(
+    category="model_checking",
+    text="Typing part of History.tla: all call sequences to depth 3 (thorough 4, two slots) over {parse, type with default files, with explicit copies A and B of the bundled "
+         "files, on a partially generated molecule}. Every typing observation is checked for totality (one parameter set per atom incl. hydrogens, or FfAssignmentError "
+         "carrying the partial assignment), element consistency (parameter mass = element mass), equality with the pristine baseline (history independence), equality "
+         "between copied and default files, refusal of partial molecules, and independence of atom numbering (equivalent strings).",
+    design_ref="DESIGN.md 4/C20",
+    note="Trusted: TLC, RDKit atomic weights; OPLS masses rounded (tolerance 0.02 Da). Chemistry limited to what the bundled rules can type.",
+    technique="TLA+ history spec enumerated exhaustively by TLC; histories replayed into the implementation",
+)
+
 PENDING_REASON = "check not built yet in this round (design in DESIGN.md); no claim is made"
 
 
